@@ -117,6 +117,7 @@ func main() {
 		tier = "quick"
 	}
 	replay := ""
+	buildOnly := false
 	var passthru []string
 	for i := 2; i < len(os.Args); i++ {
 		switch os.Args[i] {
@@ -126,6 +127,8 @@ func main() {
 		case "--replay", "-replay":
 			i++
 			replay = os.Args[i]
+		case "--build-only":
+			buildOnly = true
 		default:
 			passthru = append(passthru, os.Args[i])
 		}
@@ -141,6 +144,17 @@ func main() {
 	}
 	defer os.RemoveAll(scratch)
 	start := time.Now()
+	if buildOnly {
+		// compile every part once so that the build cache is warm
+		for i, p := range s.Parts {
+			sub := filepath.Join(scratch, fmt.Sprintf("b%d", i))
+			os.MkdirAll(sub, 0o755)
+			buildHarness(p, root, sub)
+			os.RemoveAll(sub)
+		}
+		os.RemoveAll(scratch)
+		os.Exit(0)
+	}
 	if replay != "" {
 		code := 2
 		name := replayPart(replay)
